@@ -21,6 +21,20 @@ LEVEL = "exploration"
 SHARDS = {"quick": 8, "thorough": 16}
 BUDGET = {"quick": 25.0, "thorough": 420.0}
 REQUIRE = {
+    "gc_core_histories": 450,
+    "user_arg_core_histories": 3000,
+    "api_calls_under_gc_pressure": 500,
+    "api_calls_under_gc_pressure:by_key": 100,
+    "api_calls_under_gc_pressure:disconnect": 100,
+    "api_calls_under_gc_pressure:connect": 50,
+    "api_calls_under_gc_pressure:emit": 150,
+    "weak_arg_collected_inside_api_call": 150,
+    "weak_arg_collected_inside_api_call:by_key": 20,
+    "model:kill_by_automatic_gc": 300,
+    "model:disc_args_while_same_callback_connected_with_other_user_arg": 5000,
+    "model:disc_args_user_arg_omitted_while_connected_with_one": 1000,
+    "model:disc_args_while_same_callback_connected_with_other_user_args": 250,
+    "model:disc_args_hit_with_user_arg": 1500,
     "lazy_core_histories": 300,
     "lazy_iterable_consumed_in_connect": 1000,
     "lazy_iterable_consumed_in_disconnect": 400,
@@ -57,11 +71,11 @@ REQUIRE = {
     "layout_core_histories:slotsdict": 1000,
     "layout_core_histories:fwd": 1000,
     "layout_core_histories:prop": 1000,
-    "sender:slots": 1500,
-    "sender:slotsub": 1500,
-    "sender:slotsdict": 1500,
-    "sender:fwd": 1500,
-    "sender:prop": 1500,
+    "sender:slots": 800,
+    "sender:slotsub": 800,
+    "sender:slotsdict": 800,
+    "sender:fwd": 800,
+    "sender:prop": 800,
     "histories": 6000,
     "model:emit": 15000,
     "model:emit_nested": 2000,
@@ -105,6 +119,14 @@ RULE = (
     "widgets (Button click, CheckBox/Edit change+postchange, SimpleListWalker/SimpleFocusListWalker modified, walker inside a "
     "ListBox); distinct = distinct (header, ops) descriptors; non-trivial = at least one emit executed; sender attribute layouts {slot, inherited slot + dict subclass, slot + __dict__, forwarding __getattr__/__setattr__, property} "
     "appear in random histories, in the refcount-only part and in their own n=2 core (every behaviour pair x <=1 op, then the sender is dropped)"
+    "; the same callback is connected several times on one signal with differing deprecated positional user_arg / "
+    "user_args / weak_args (connect_same) and disconnected by arguments with a matching, another or an omitted user_arg (own "
+    "enumerated core: permutations of {depA, depB, omitted} x {weak, none} x {user_args, none} x 1-2 disconnect requests); the "
+    "Button / CheckBox / RadioButton constructor shorthands (on_press= / on_state_change= + user_data=) are connect entry points; "
+    "gc-pressure histories: weak arguments inside a reference cycle are dropped WITHOUT collecting and the following API calls "
+    "run with the automatic collector armed to fire after k=0..5 container allocations, i.e. inside connect / disconnect / "
+    "disconnect_by_key / emit (own core: dying handler position x call x k x API; the death is logged by a weakref callback "
+    "at the exact point of the history where it happens)"
     "; weak_args / user_args are also passed as generators whose body performs ops (kill an earlier weak "
     "arg, disconnect, connect, emit, gc) INSIDE connect()/disconnect() -- enumerated (2 earlier handlers x op x position x "
     "iterable x API) and random; PLUS class families for the registration clause (MetaSignals classes with list literal / list "
@@ -124,6 +146,8 @@ ASSUMES = [
     "emit result is compared by truthiness; handler return values used: None, False, 0, '', True, 1, 'x', (0,)",
     "for widget triggers the emitted arguments follow the widget documentation: (widget, new value) for 'change', (widget, old value) for 'postchange', (widget,) for 'click', () for 'modified'",
     "registration: a class must accept the names in its own `signals` list as it was when the class was created plus everything its bases must accept (MetaSignals docstring), and must reject every other name (exact set; no tolerance band); classes created later never change this; a manual register_signal call replaces the set",
+    "same-callback connections use user_arg values whose == agrees with identity ('depA', 'depB', 'dep2', 5, 'q'): urwid matches disconnect arguments with ==, so 0/False/1/True mixtures would be ambiguous and are not generated for one callback",
+    "a weak argument that is unreachable but not yet collected counts as alive until its weakref callback fires; the automatic collector may fire anywhere",
     "ops run from inside connect()/disconnect() are ordered before the connection/disconnection they are nested in (the handler list is touched last by connect)",
     "refcount-only lifetime part: a sender class is used only if a never-connected instance of it dies by reference counting alone (control run first); whether a dead weak argument's connection also releases its callback is recorded as an observation (dead_weak_connection_callback_released/retained), not judged",
     "history part: liveness is judged after dropping the harness's own references and one gc.collect(); handlers never hold a strong reference to a sender or weak argument other than ones the history itself passes as user_args (never done)",
@@ -244,6 +268,7 @@ WIDGET_KINDS = {
     "slw_listbox": ["modified"],
     "button_cb": ["click"],  # Button(on_press=..., user_data=...): the constructor connects through the deprecated user_arg
     "checkbox_cb": ["change", "postchange"],  # CheckBox(on_state_change=..., user_data=...)
+    "radio_cb": ["change", "postchange"],  # RadioButton(group, label, on_state_change=..., user_data=...)
 }
 
 
@@ -289,6 +314,7 @@ class EmitFrame:
     def __init__(self, slots):
         self.slots = slots  # emit events in the order they are expected
         self.last = 0
+        self.sink_depth = None  # len(session.sinks) while no handler of this emit is running
 
     def place(self, drv, rec):
         for i, ev in enumerate(self.slots):
@@ -327,6 +353,13 @@ class Session:
         self.emit_stack = []
         self.pins = []
         self.findings = []
+        self.api_now = []  # API calls currently running with the collector armed
+        self.dying = {}  # oid -> weakref of an object whose last reference was dropped WITHOUT running the collector
+        self.gck = list(header.get("gc_pressure") or [])  # k = 0: the collector is due at the first container allocation
+        self.gci = 0
+        if self.gck:
+            self.gc_was = (gc.isenabled(), gc.get_threshold())
+            gc.disable()
         self.nops = 0
         self.ncalls = 0
         self.nweak = 0
@@ -344,12 +377,14 @@ class Session:
                 o = urwid.Button("b")
             elif k == "checkbox":
                 o = urwid.CheckBox("c", has_mixed=True)
-            elif k in ("button_cb", "checkbox_cb"):
+            elif k in ("button_cb", "checkbox_cb", "radio_cb"):
                 name = "click" if k == "button_cb" else "change"
                 h = Handler(self, len(self.handlers), sid, name, None, [])
                 self.handlers.append(h)
                 if k == "button_cb":
                     o = urwid.Button("b", on_press=h.func, user_data="ud")
+                elif k == "radio_cb":
+                    o = urwid.RadioButton([], "r", state=False, on_state_change=h.func, user_data="ud")
                 else:
                     o = urwid.CheckBox("c", has_mixed=True, on_state_change=h.func, user_data="ud")
                 cid = len(self.conns)
@@ -379,12 +414,12 @@ class Session:
 
     def newweak(self):
         oid = f"w{self.nweak}"
-        self.put(oid, WeakObj(self.nweak % 2 == 1))
+        self.put(oid, WeakObj(self.nweak % 2 == 1 or bool(self.header.get("gc_pressure"))))
         self.nweak += 1
 
     def enc(self, x):
         oid = self.ids.get(id(x))
-        if oid is not None and self.objs.get(oid) is x:
+        if oid is not None and (self.objs.get(oid) is x or (oid in self.dying and self.dying[oid]() is x)):
             return {"o": oid}
         if x is None or isinstance(x, (bool, int, float, str)):
             return x
@@ -406,8 +441,59 @@ class Session:
     # ---- API flavour (looked up at call time)
     def f(self, what):
         if self.sig is not None:
-            return getattr(self.sig, {"connect": "connect", "disconnect": "disconnect", "by_key": "disconnect_by_key", "emit": "emit"}[what])
-        return getattr(self.urwid, {"connect": "connect_signal", "disconnect": "disconnect_signal", "by_key": "disconnect_signal_by_key", "emit": "emit_signal"}[what])
+            fn = getattr(self.sig, {"connect": "connect", "disconnect": "disconnect", "by_key": "disconnect_by_key", "emit": "emit"}[what])
+        else:
+            fn = getattr(self.urwid, {"connect": "connect_signal", "disconnect": "disconnect_signal", "by_key": "disconnect_signal_by_key", "emit": "emit_signal"}[what])
+        if self.gck and any(r() is not None for r in self.dying.values()):
+            return lambda *a, **kw: self.under_gc_pressure(fn, what, a, kw)
+        return fn
+
+    def under_gc_pressure(self, fn, what, a, kw):
+        """run one API call with the automatic cycle collector armed to fire after k more container allocations,
+        i.e. somewhere INSIDE the call, while unreachable weak arguments are waiting to be collected"""
+        k = self.gck[self.gci % len(self.gck)]
+        self.gci += 1
+        self.cnt("api_calls_under_gc_pressure")
+        self.cnt("api_calls_under_gc_pressure:" + what)
+        before = sum(1 for r in self.dying.values() if r() is not None)
+        self.api_now.append(what)
+        gc.set_threshold(gc.get_count()[0] + k, 1, 1)
+        gc.enable()
+        try:
+            return fn(*a, **kw)
+        finally:
+            gc.disable()
+            self.api_now.pop()
+            gc.set_threshold(*self.gc_was[1])
+            if sum(1 for r in self.dying.values() if r() is not None) < before:
+                self.cnt("weak_arg_collected_inside_api_call")
+                self.cnt("weak_arg_collected_inside_api_call:" + what)
+
+    def _died(self, oid):
+        e = {"t": "kill", "oid": oid, "dead": True, "auto": True, "inside": self.api_now[-1] if self.api_now else None}
+        self.ids = {i: o for i, o in self.ids.items() if o != oid}
+        if self.emit_stack and len(self.sinks) == self.emit_stack[-1].sink_depth:
+            fr = self.emit_stack[-1]
+            fr.slots[fr.last]["calls"].append({"marker": e})  # between two handler calls of the running emit
+        else:
+            self.sinks[-1].append(e)
+
+    def op_drop(self, op, h):
+        """drop the last reference to a weak-argument object WITHOUT collecting: a cyclic one stays around as garbage
+        until the collector runs (possibly in the middle of a later API call)"""
+        oid = op[1]
+        if oid not in self.objs or oid in self.header["senders"] or any(oid in p for p in self.pins):
+            return
+        o = self.objs.pop(oid)
+        self.dying[oid] = weakref.ref(o, lambda r, oid=oid: self._died(oid))
+        del o
+
+    def finish(self):
+        if self.gck:
+            gc.collect()
+            gc.set_threshold(*self.gc_was[1])
+            if self.gc_was[0]:
+                gc.enable()
 
     def ev(self, e):
         self.sinks[-1].append(e)
@@ -524,6 +610,14 @@ class Session:
         self.handlers.append(handler)
         self._connect(sid, name, handler, weak, uargs, uarg, style, lazy)
 
+    def op_connect_same(self, op, h):
+        """the SAME callback as connection cref once more on the same signal, with some of its connect arguments changed"""
+        c = self.ref(op[1], h)
+        if c is None:
+            return
+        ov = op[2]
+        self._connect(c["sid"], c["name"], c["h"], ov.get("weak", c["weak"]), ov.get("uargs", c["uargs"]), ov.get("uarg", c["uarg"]), c["style"])
+
     def op_reconnect(self, op, h):
         c = self.ref(op[1], h)
         if c is None:
@@ -594,6 +688,11 @@ class Session:
             self._disc_key(sid, name, Key(), None)
         elif c is None:
             return
+        elif kind == "other-uarg":
+            # same callback, same weak/user args, but another deprecated positional user_arg
+            self._disc_args(c["sid"], c["name"], c["h"].callable(c["style"]), c["h"].hid, c["weak"], c["uargs"], "zz9" if c["uarg"] != "zz9" else "zz8")
+        elif kind == "omit-uarg":
+            self._disc_args(c["sid"], c["name"], c["h"].callable(c["style"]), c["h"].hid, c["weak"], c["uargs"], None if c["uarg"] is not None else "zz9")
         elif kind == "other-uargs":
             self._disc_args(c["sid"], c["name"], c["h"].callable(c["style"]), c["h"].hid, c["weak"], [*c["uargs"], "zz"], c["uarg"])
         elif kind == "no-weak":
@@ -616,6 +715,7 @@ class Session:
         e = {"t": "emit", "sid": sid, "name": name, "args": list(args), "calls": [], "result": None, "result_truthy": False, "exc": None}
         self.ev(e)
         self.emit_stack.append(EmitFrame([e]))
+        self.emit_stack[-1].sink_depth = len(self.sinks)
         self.pins.append({sid, *oids})
         try:
             r = self.f("emit")(self.objs[sid], nm(name), *[self.dec(a) for a in args])
@@ -674,6 +774,11 @@ class Session:
                     w.edit_text = new
 
             slots = [E("change", [me, new]), E("postchange", [me, old])]
+        elif kind == "radio_cb":
+            old = w.state
+            new = not old
+            fn = lambda: w.set_state(new)  # noqa: E731
+            slots = [E("change", [me, new]), E("postchange", [me, old])]
         elif kind in ("checkbox", "checkbox_cb"):
             old = w.state
             m = how % 4
@@ -702,6 +807,7 @@ class Session:
         for e in slots:
             self.ev(e)
         self.emit_stack.append(EmitFrame(slots))
+        self.emit_stack[-1].sink_depth = len(self.sinks)
         self.pins.append({sid})
         self.cnt("widget_triggers")
         try:
@@ -745,6 +851,8 @@ def evaluate(wit):
         s.run(wit["ops"])
     except RecursionError:
         return [("harness|recursion", "recursion limit")], {}, s
+    finally:
+        s.finish()
     findings, stats = signals_ref.check(wit["header"], s.events)
     return [*s.findings, *findings], stats, s
 
@@ -904,6 +1012,47 @@ def core_cases(n, maxprefix, minprefix=0, kind="plain"):
                 yield {"header": header, "ops": [*conn, *p, ["emit", "s0", "a", ["x", 1]]]}
 
 
+def uarg_core_cases():
+    """one callback connected several times on one signal with differing deprecated positional user_arg (and the same
+    weak_args / user_args); then disconnects by arguments with a matching / another / an omitted user_arg"""
+    vals = ["depA", "depB", None]
+    for api, wk, ua in itertools.product(("module", "fresh"), (0, 1), (0, 1)):
+        header = {"api": api, "senders": {"s0": {"kind": "plain", "names": ["a", "b"]}}, "nweak": 1}
+        weak = ["w0"] if wk else []
+        uargs = ["u"] if ua else []
+        for size in (1, 2, 3):
+            for perm in itertools.permutations(vals, size):
+                conn = [["connect", "s0", "a", {"ret": None, "acts": []}, weak, uargs, perm[0], "func"]]
+                conn += [["connect_same", 0, {"uarg": v}] for v in perm[1:]]
+                conn.append(["connect", "s0", "a", {"ret": 1, "acts": []}, weak, uargs, perm[0], "meth"])  # another callback, same args
+                discs = [["disc_args", k] for k in range(size)]
+                discs += [["disc_bogus", "s0", "a", "other-uarg", 0], ["disc_bogus", "s0", "a", "omit-uarg", 0], ["disc_bogus", "s0", "a", "other-uarg", size - 1]]
+                for d1 in discs:
+                    for d2 in [None, *discs]:
+                        ops = [*conn, d1, ["emit", "s0", "a", ["x"]]]
+                        if d2 is not None:
+                            ops += [d2, ["emit", "s0", "a", ["y"]]]
+                        yield {"header": header, "ops": ops}
+
+
+def gc_core_cases():
+    """a weak argument that is unreachable but not yet collected (member of a reference cycle) while the next API call
+    runs with the automatic collector armed to fire after k container allocations, i.e. inside that call"""
+    for api in ("module", "fresh"):
+        for p, k in itertools.product(range(4), range(0, 6)):
+            header = {"api": api, "senders": {"s0": {"kind": "plain", "names": ["a", "b"]}}, "nweak": 2, "gc_pressure": [k]}
+            conn = [["connect", "s0", "a", {"ret": None, "acts": []}, ["w0"] if i == p else [], [f"h{i}"], None, STYLES[i % 3]] for i in range(4)]
+            calls = [["disc_key", j] for j in range(4)] + [["disc_args", j] for j in range(4)]
+            calls += [
+                ["disc_bogus", "s0", "a", "fresh-key", 0],
+                ["disc_bogus", "s0", "a", "fresh-callable", 0],
+                ["connect", "s0", "a", {"ret": 1, "acts": []}, ["w1"], ["new"], None, "func"],
+                ["emit", "s0", "a", ["g"]],
+            ]
+            for c in calls:
+                yield {"header": header, "ops": [*conn, ["drop", "w0"], c, ["emit", "s0", "a", ["x"]]]}
+
+
 def lazy_core_cases():
     """re-entrancy inside connect() / disconnect(): the weak_args / user_args iterable performs one op while it is consumed"""
     plain_new = ["connect", "s0", "a", {"ret": None, "acts": []}, [], ["nested"], None, "func"]
@@ -1036,6 +1185,9 @@ def rand_history(rng, quick):
     senders = {f"s{i}": {"kind": k, "names": kind_names(k)} for i, k in enumerate(kinds)}
     nweak = rng.randint(1, 4)
     header = {"api": api, "senders": senders, "nweak": nweak}
+    pressure = rng.random() < 0.2
+    if pressure:
+        header["gc_pressure"] = [rng.choice([0, 0, 0, 1, 1, 2, 3, 5]) for _ in range(rng.randint(1, 5))]
     sids = list(senders)
     names_of = {sid: s["names"] for sid, s in senders.items()}
     ops = []
@@ -1049,8 +1201,10 @@ def rand_history(rng, quick):
                 ops.append(rand_connect(rng, sids, names_of, 0, nweak, focus_sid, focus_name))
             else:
                 ops.append(rand_connect(rng, sids, names_of, 0, nweak))
-        elif r < 0.40:
+        elif r < 0.37:
             ops.append(["reconnect", cref])
+        elif r < 0.40:
+            ops.append(["connect_same", cref, rng.choice([{"uarg": rng.choice(["dep2", 5, "q", None])}, {"uarg": rng.choice(["dep2", 5, None])}, {"uargs": [rng.choice(["u2", 4])]}, {"weak": []}])])
         elif r < 0.47:
             ops.append(["disc_args", cref] + ([rand_lazy(rng, sids, names_of, nweak, focus_sid, focus_name)] if rng.random() < 0.2 else []))
         elif r < 0.54:
@@ -1058,7 +1212,7 @@ def rand_history(rng, quick):
         elif r < 0.60:
             sid = rng.choice(sids)
             ops.append(
-                ["disc_bogus", sid, rand_name(rng, sid, names_of, 0.2), rng.choice(["fresh-callable", "fresh-key", "other-uargs", "no-weak", "other-signal-key", "other-signal-args"]), cref]
+                ["disc_bogus", sid, rand_name(rng, sid, names_of, 0.2), rng.choice(["fresh-callable", "fresh-key", "other-uargs", "other-uarg", "other-uarg", "omit-uarg", "omit-uarg", "no-weak", "other-signal-key", "other-signal-args"]), cref]
             )
         elif r < 0.80:
             if rng.random() < 0.6:
@@ -1076,7 +1230,10 @@ def rand_history(rng, quick):
         elif r < 0.86:
             ops.append(["trigger", rng.choice(sids), rng.randrange(16)])
         elif r < 0.95:
-            ops.append(["kill", rng.choice([f"w{rng.randrange(nweak + 1)}"] * 4 + sids)])
+            if pressure and rng.random() < 0.7:
+                ops.append(["drop", f"w{rng.randrange(nweak + 1)}"])
+            else:
+                ops.append(["kill", rng.choice([f"w{rng.randrange(nweak + 1)}"] * 4 + sids)])
         elif r < 0.98:
             ops.append(["newweak"])
             nweak += 1
@@ -1670,6 +1827,32 @@ def run(ctx):
     run_lifetime(ctx, 0.08)
     run_family(ctx, 0.16)
     idx = 0
+    # directed fixed-size cores first (they are small and each targets one mechanism), then the big enumerated core
+    for wit in lazy_core_cases():
+        idx += 1
+        if ctx.mine(idx) and ctx.more(0.6):
+            judge(ctx, wit)
+            ctx.count("lazy_core_histories")
+    for wit in gc_core_cases():
+        idx += 1
+        if ctx.mine(idx) and ctx.more(0.6):
+            judge(ctx, wit)
+            ctx.count("gc_core_histories")
+    for wit in uarg_core_cases():
+        idx += 1
+        if ctx.mine(idx) and ctx.more(0.6):
+            judge(ctx, wit)
+            ctx.count("user_arg_core_histories")
+    # the n=2 core (every behaviour pair, <=1 op before the final emit) on every sender attribute layout,
+    # followed by dropping the sender
+    for kind in LAYOUT_KINDS:
+        for wit in core_cases(2, 1, 0, kind):
+            idx += 1
+            if ctx.mine(idx) and ctx.more(0.6):
+                wit["ops"].append(["kill", "s0"])
+                judge(ctx, wit)
+                ctx.count("layout_core_histories")
+                ctx.count("layout_core_histories:" + kind)
     complete = {}
     plan = ctx.pick([(1, 2, 0), (2, 2, 0), (3, 1, 0)], [(1, 2, 0), (2, 2, 0), (3, 2, 0), (4, 1, 0), (4, 2, 2)])
     for n, maxprefix, minprefix in plan:
@@ -1678,30 +1861,15 @@ def run(ctx):
             idx += 1
             if not ctx.mine(idx):
                 continue
-            if not ctx.more(0.6 if ctx.quick else 0.75):
+            if not ctx.more(0.75):
                 done = False
                 break
             judge(ctx, wit)
             ctx.count("core_histories")
-            if idx < 40 and n == 3:
+            if n == 3:
                 ctx.sample(wit, limit=1)
         complete[f"n={n},prefix={minprefix}..{maxprefix}"] = done
     ctx.extra["core_complete_in_budget"] = complete
-    for wit in lazy_core_cases():
-        idx += 1
-        if ctx.mine(idx) and ctx.more(0.9):
-            judge(ctx, wit)
-            ctx.count("lazy_core_histories")
-    # the n=2 core (every behaviour pair, <=1 op before the final emit) on every sender attribute layout,
-    # followed by dropping the sender
-    for kind in LAYOUT_KINDS:
-        for wit in core_cases(2, 1, 0, kind):
-            idx += 1
-            if ctx.mine(idx) and ctx.more(0.9):
-                wit["ops"].append(["kill", "s0"])
-                judge(ctx, wit)
-                ctx.count("layout_core_histories")
-                ctx.count("layout_core_histories:" + kind)
     rng = ctx.rng
     k = 0
     while ctx.more(1.0):
